@@ -73,6 +73,11 @@ func CodecMarshal(m proto.Message) ([]byte, error) {
 		out = putU64(out, x.ValueOffset)
 		out = putU64(out, x.Checksum)
 		return out, nil
+	case *sst.DataEntry:
+		if len(x.Value) > 65535 {
+			return nil, ErrCodec
+		}
+		return putBytes([]byte{6}, x.Value), nil
 	case *sst.MetaData:
 		out := []byte{2}
 		out = putU64(out, x.NumRecords)
@@ -135,6 +140,20 @@ func CodecUnmarshal(b []byte, m proto.Message) error {
 		x.Key = d.bytes()
 		x.ValueOffset = d.u64()
 		x.Checksum = d.u64()
+		if d.bad || len(d.b) != 0 {
+			return ErrCodec
+		}
+		return nil
+	case *sst.DataEntry:
+		*x = sst.DataEntry{}
+		if len(b) == 0 {
+			return nil
+		}
+		if b[0] != 6 {
+			return ErrCodec
+		}
+		d := &dec{b: b[1:]}
+		x.Value = d.bytes()
 		if d.bad || len(d.b) != 0 {
 			return ErrCodec
 		}
